@@ -37,6 +37,7 @@ def _drive(sim, blocks, flush, start, committed):
 def scenario(shape):
     eng = engine()
     sim = chain.Sim(reorg_limit=10, daemon_height=5, activation=shape.get('activation', 1))
+    sim.world.small_files = shape.get('small_files', False)
     try:
         sim.open()
         blocks = [sim.gen_block(b, f'b{i}') for i, b in enumerate(shape['blocks'])]
@@ -114,7 +115,12 @@ def shapes(tier):
     three = [('h', 'h'), ('h', 'f')] if tier == 'quick' else list(itertools.product('nhf', repeat=2))
     for s in three:
         out.append({'blocks': [cbA, sp1A, sp1b], 'flush': list(s) + ['n'], 'crashes': 1})
+    # flat files split into physical files of two records: one logical write becomes several physical writes, each a
+    # crash point of its own
+    out.append({'blocks': [cbA, sp1A, sp1b], 'flush': ['f', 'n', 'n'], 'crashes': 1, 'small_files': True})
     if tier == 'thorough':
+        out.append({'blocks': [cbA, sp1A, sp2], 'flush': ['h', 'n', 'n'], 'crashes': 1, 'small_files': True})
+        out.append({'blocks': [cbA, sp1A, sp1b], 'flush': ['f', 'h', 'n'], 'crashes': 2, 'small_files': True})
         for s in itertools.product('nhf', repeat=2):
             out.append({'blocks': [cbA, sp1A, sp2], 'flush': list(s) + ['n'], 'crashes': 1})
         for s in (('h', 'h'), ('n', 'f'), ('f', 'h')):
@@ -137,7 +143,9 @@ KERNELS = [
            bounds='chains of 2 (quick) / 3 (thorough) blocks, flush schedule enumerated (none / history-only / '
                   'full after each block, final full flush); crash point: every durable operation (symbolic '
                   'integer); one crash (quick), two crashes incl. during recovery (thorough); garbage of a torn '
-                  'write: arbitrary bytes; one symbolic script, symbolic tx-hash prefixes and values',
+                  'write: arbitrary bytes; one symbolic script, symbolic tx-hash prefixes and values; one shape (thorough: '
+                  'three) with the flat files split into physical files of two records (a logical write = several '
+                  'physical writes)',
            outside='power loss (un-fsynced meta files vs synced batches), LevelDB-internal recovery, crashes during '
                    'the very first database creation, RocksDB',
            assumptions=['LevelDB write_batch(transaction=True, sync=True) and single puts are atomic',
